@@ -9,6 +9,7 @@ import NPModel.Refine.PackSorted
 import NPModel.Refine.TakeFill
 import NPModel.Refine.Positions
 import NPModel.Impl.Frame
+import NPModel.Refine.Repack
 namespace NP
 variable {α : Type}
 
@@ -453,5 +454,103 @@ theorem setFilteredFlatDf_rows (F : NFrame α) (nest : String) (cols : List (Str
       have h2 : (List.range lens.length)[i]? = none := by
         rw [List.getElem?_eq_none_iff]; simp; omega
       rw [h1, h2]; rfl
+
+
+/-! ### filtering the flat view, then re-packing -/
+
+/-- per-row masks applied to per-row lists -/
+def filterRowsBy (masks : List (List Bool)) (lists : List (List α)) : List (List α) :=
+  List.zipWith filterBy masks lists
+
+theorem filterBy_flatten : ∀ (masks : List (List Bool)) (lists : List (List α)),
+    All2 (fun m l => m.length = l.length) masks lists →
+    filterBy masks.flatten lists.flatten = (filterRowsBy masks lists).flatten
+  | _, _, All2.nil => rfl
+  | _, _, All2.cons (a := m) (b := l) (as := ms) (bs := ls) h hs => by
+    simp only [List.flatten_cons, filterRowsBy, List.zipWith_cons_cons]
+    rw [filterBy_append m ms.flatten l ls.flatten h]
+    congr 1
+    exact filterBy_flatten ms ls hs
+
+theorem filterBy_ordIndex : ∀ (s : Nat) (masks : List (List Bool)) (lens : List Nat),
+    All2 (fun m n => m.length = n) masks lens →
+    filterBy masks.flatten (ordIndex s lens) = ordIndex s (masks.map fun m => (m.filter id).length)
+  | _, _, _, All2.nil => rfl
+  | s, _, _, All2.cons (a := m) (b := n) (as := ms) (bs := ns) h hs => by
+    simp only [List.flatten_cons, ordIndex, List.map_cons]
+    rw [filterBy_append m ms.flatten _ _ (by simp [h]), filterBy_ordIndex (s + 1) ms ns hs]
+    congr 1
+    -- a constant block keeps as many copies as the mask has set positions
+    have := filterBy_replicate m (Label.int (s : Int)) m (rfl)
+    rw [h] at this
+    rw [this]
+    congr 1
+    clear this h
+    induction m with
+    | nil => rfl
+    | cons b m ih => cases b <;> simp [ih]
+
+theorem filterRowsBy_lengths : ∀ (masks : List (List Bool)) (lists : List (List α)),
+    All2 (fun m l => m.length = l.length) masks lists →
+    (filterRowsBy masks lists).map List.length = masks.map fun m => (m.filter id).length
+  | _, _, All2.nil => rfl
+  | _, _, All2.cons (a := m) (b := l) (as := ms) (bs := ls) h hs => by
+    simp only [filterRowsBy, List.zipWith_cons_cons, List.map_cons]
+    have ih := filterRowsBy_lengths ms ls hs
+    unfold filterRowsBy at ih
+    rw [ih]
+    congr 1
+    clear ih hs
+    induction m generalizing l with
+    | nil => simp
+    | cons b m ihm =>
+      cases l with
+      | nil => simp at h
+      | cons x l => cases b <;> simp [ihm l (by simpa using h)]
+
+theorem all2_of_lengths : ∀ (masks : List (List Bool)) (lens : List Nat) (lists : List (List α)),
+    All2 (fun m n => m.length = n) masks lens → lists.map List.length = lens →
+    All2 (fun m l => m.length = l.length) masks lists
+  | _, _, [], All2.nil, _ => All2.nil
+  | _, _, _ :: _, All2.nil, hl => by simp at hl
+  | _, _, [], All2.cons _ _, hl => by simp at hl
+  | _, _, l :: ls, All2.cons (as := ms) (bs := ns) h hs, hl => by
+    simp only [List.map_cons, List.cons.injEq] at hl
+    exact All2.cons (by rw [h, hl.1]) (all2_of_lengths ms ns ls hs hl.2)
+
+/-- **Filter the flat view with any per-record mask, re-pack, align: filtering inside every row.**
+    `masks` are the per-record outcomes of a condition, row by row.  Filtering the ordinal flat
+    table of the rows' records by the flattened mask and handing it to `_set_filtered_flat_df`
+    makes row `i` of the nested column hold exactly the records of row `i` whose mask is set, in
+    their original order, every field filtered by the same mask — and missing when none is kept. -/
+theorem filter_then_repack (F : NFrame α) (nest : String) (cols : List (String × String × List (List α)))
+    (lens : List Nat) (masks : List (List Bool))
+    (hn : lens.length = F.index.length) (hcols : ∀ c ∈ cols, c.2.2.map List.length = lens)
+    (hmasks : All2 (fun m n => m.length = n) masks lens) (hne : cols ≠ []) :
+    ∃ col, F.setFilteredFlatDf nest ((ordFlat cols lens).filterRows masks.flatten) = .ok (F.setCol nest (.nest col)) ∧
+      col.rows = repackedRows (cols.map fun c => (c.1, c.2.1, filterRowsBy masks c.2.2))
+        (masks.map fun m => (m.filter id).length) := by
+  have hml : masks.length = lens.length := hmasks.length_eq
+  -- masks line up with every column's lists
+  have hall : ∀ c ∈ cols, All2 (fun m l => m.length = l.length) masks c.2.2 :=
+    fun c hc => all2_of_lengths masks lens c.2.2 hmasks (hcols c hc)
+  have hflat : (ordFlat cols lens).filterRows masks.flatten =
+      ordFlat (cols.map fun c => (c.1, c.2.1, filterRowsBy masks c.2.2)) (masks.map fun m => (m.filter id).length) := by
+    unfold FlatDF.filterRows ordFlat
+    simp only [List.map_map]
+    congr 1
+    · exact filterBy_ordIndex 0 masks lens hmasks
+    · apply List.map_congr_left
+      intro c hc
+      simp only [Function.comp]
+      rw [filterBy_flatten masks c.2.2 (hall c hc)]
+  rw [hflat]
+  apply setFilteredFlatDf_rows
+  · simp [hml, hn]
+  · intro c hc
+    simp only [List.mem_map] at hc
+    obtain ⟨c', hc', rfl⟩ := hc
+    exact filterRowsBy_lengths masks c'.2.2 (hall c' hc')
+  · simpa using hne
 
 end NP
